@@ -237,20 +237,24 @@ def rule_e(ctx, ix):
     if not shared:
         raise AnalysisError('LoadLog._log_component no longer appends to the shared component list')
     n = 0
-    for cmp_ in [x for x in ast.walk(f.node) if isinstance(x, ast.Compare) and len(x.comparators) == 1]:
+    from ..util import expand_locals
+    for cmp0 in [x for x in ast.walk(f.node) if isinstance(x, ast.Compare) and len(x.comparators) == 1]:
+        # local names for the two sides (n_coords, ndim, ...) are read through
+        cmp_ = expand_locals(f.node, cmp0)
+        ast.copy_location(cmp_, cmp0)
         sides = [cmp_.left, cmp_.comparators[0]]
-        single = [e for e in sides if any(isinstance(y, ast.Subscript) and unparse(y.value) in ('%s.components' % s, '%s.data' % s)
-                                          and isinstance(y.slice, ast.Constant) for y in ast.walk(e))]
-        if not single:
+
+        def counts(e):
+            return [c for c in ast.walk(e) if isinstance(c, (ast.ListComp, ast.GeneratorExp, ast.SetComp))
+                    and any(unparse(g.iter) == '%s.components' % s for g in c.generators)]
+        count_sides = [e for e in sides if counts(e)]
+        single = [e for e in sides if not counts(e) and
+                  any(isinstance(y, ast.Subscript) and unparse(y.value) in ('%s.components' % s, '%s.data' % s)
+                      and isinstance(y.slice, ast.Constant) for y in ast.walk(e))]
+        if not single or not count_sides:
             continue
-        other = [e for e in sides if e not in single]
-        for e in other:
-            # follow one local name to the expression that counts
-            if isinstance(e, ast.Name):
-                defs = [st for st in walk_no_nested(f.node) if isinstance(st, ast.Assign) and unparse(st.targets[0]) == e.id]
-                e = defs[-1].value if defs else e
-            comps = [c for c in ast.walk(e) if isinstance(c, (ast.ListComp, ast.GeneratorExp, ast.SetComp))
-                     and any(unparse(g.iter) == '%s.components' % s for g in c.generators)]
+        for e in count_sides:
+            comps = counts(e)
             for c in comps:
                 n += 1
                 conds = [unparse(i) for g in c.generators for i in g.ifs]
